@@ -383,7 +383,11 @@ def r3_path_param(c, facts):
     # same Uri for key and parameters
     ap = c.anchor(R, 'oal_openapi::Builder::all_paths')
     found_pat = found_item = False
-    for cl in [ap] + facts.closures_of(ap):
+    # all_paths itself, its closures, and the private helpers split off it since the pinned tree (`path_entry(rel)`)
+    _known = facts.known_fns_or_aliases()
+    _plain = facts.fns.get(ap.id, ap)
+    _new = [g for g in facts.family(_plain) if g.id != ap.id and g.mir and g.qname not in _known]
+    for cl in [ap] + [x for x in facts.closures_of(_plain) if x not in _new] + _new:
         cidx = MF.defs_index(cl)
         pats = P.call_blocks(cl, 'Uri::pattern')
         items = P.call_blocks(cl, 'Builder::relation_path_item')
@@ -565,7 +569,11 @@ def r13_path_key(c, facts):
     # is not done to the path parameters, which uri_params derives from the same URI
     ap = c.anchor(R, 'oal_openapi::Builder::all_paths')
     k = 0
-    for g in [facts.normalised(ap)] + [facts.closure_flat(x)[0] for x in facts.closures_of(ap)]:
+    _known13 = facts.known_fns_or_aliases()
+    _plain13 = facts.fns.get(ap.id, ap)
+    _units13 = [facts.normalised(ap)] + [facts.closure_flat(x)[0] for x in facts.closures_of(_plain13)] \
+        + [x for x in facts.family(_plain13) if x.id != ap.id and x.kind != 'Closure' and x.mir and x.qname not in _known13]
+    for g in _units13:
         if not g.mir:
             continue
         gidx = MF.defs_index(g)
